@@ -21,10 +21,10 @@ import tlc
 from common import spec, cfgpath
 
 CONTENT = {1: b'alpha text file\n' * 20, 2: b'nested b.txt\n', 3: b'text without extension, long enough ' * 40,
-           4: bytes(range(256)) * 8, 5: b'', 6: b'SHADOWED a.txt of root2\n', 7: b'only in root2\n',
+           4: bytes(range(256)) * 8, 5: b'', 6: b'SHADOWED a.txt of aroot2\n', 7: b'only in aroot2\n',
            8: b'a.txt of the second application\n', 9: b'third, second application only\n'}
-TREE = {'root1': {'a.txt': 1, 'd/b.txt': 2, 'noext': 3, 'd/bin': 4, 'empty': 5},
-        'root2': {'a.txt': 6, 'only2': 7},
+TREE = {'zroot1': {'a.txt': 1, 'd/b.txt': 2, 'noext': 3, 'd/bin': 4, 'empty': 5},
+        'aroot2': {'a.txt': 6, 'only2': 7},
         'root3': {'a.txt': 8, 'third': 9}}
 CTYPE = {1: 'text/plain', 2: 'text/plain', 3: 'text/plain', 4: 'application/octet-stream', 5: 'text/plain',
          6: 'text/plain', 7: 'text/plain', 8: 'text/plain', 9: 'text/plain'}
@@ -41,7 +41,7 @@ def materialise():
             os.makedirs(os.path.dirname(p), exist_ok=True)
             with open(p, 'wb') as f:
                 f.write(CONTENT[cid])
-    for rel in ('tree/secret.txt', 'secret.txt', 'tree/root1/../beside.txt'):
+    for rel in ('tree/secret.txt', 'secret.txt', 'tree/zroot1/../beside.txt'):
         with open(os.path.join(base, rel), 'wb') as f:
             f.write(SECRET)
     return base
@@ -96,7 +96,7 @@ def run_request(app, base, segs, ims_kind, fault, last_modified):
     target = None
     if call != '-':
         rel = os.path.normpath('/'.join(segs)) if segs else '.'
-        target = os.path.join(base, 'tree', 'root1', rel)
+        target = os.path.join(base, 'tree', 'zroot1', rel)
     fy = Faulty(fault, target)
     real_isfile, real_getmtime, real_getsize = st.isfile, os.path.getmtime, os.path.getsize
     has_ims = ims_kind != 'none'
@@ -209,7 +209,7 @@ def check(run):
     base = materialise()
     try:
         t = os.path.join(base, 'tree')
-        app = Application([('/s', StaticApplication([os.path.join(t, 'root1'), os.path.join(t, 'root2')])),
+        app = Application([('/s', StaticApplication([os.path.join(t, 'zroot1'), os.path.join(t, 'aroot2')])),
                            ('/s', StaticApplication([os.path.join(t, 'root3')]))])
         lm_cache = {}
         for n, rec in enumerate(recs):
@@ -249,7 +249,7 @@ def replay(run, path):
     base = materialise()
     try:
         t = os.path.join(base, 'tree')
-        app = Application([('/s', StaticApplication([os.path.join(t, 'root1'), os.path.join(t, 'root2')])),
+        app = Application([('/s', StaticApplication([os.path.join(t, 'zroot1'), os.path.join(t, 'aroot2')])),
                            ('/s', StaticApplication([os.path.join(t, 'root3')]))])
         req = rec['req']
         lm = None
